@@ -89,6 +89,12 @@ class C03(Check):
         us = [deriv_unit(s) for s in fam]
         for u, s in zip(us, fam):
             u.optional = s.name.startswith("gen")
+        cat = ["SIR_Birth_Death", "Lotka_Volterra", "FitzHugh"] if tier == "quick" else \
+            [n for n in expr.CATALOGUE if n not in ("SEIR_Multiple", "Legrand_Ebola_SEIHFR")]
+        for nm in cat:
+            u = deriv_unit(expr.catalogue(nm))
+            u.optional = True      # large catalogue models: an undecided second-derivative identity leaves the claim
+            us.append(u)
         return us
 
 
